@@ -199,12 +199,12 @@ pub fn bodies() -> Vec<(&'static str, Vec<u8>)> {
 
 pub fn run(run: &mut Run) -> Finish {
     let tier = run.ctx.tier;
-    let hmax = tier.pick(4, 5);
+    let hmax = tier.pick(4, 6);
     let nh = crate::spaces::n_seq_upto(9, hmax);
     let bods = bodies();
     let nb = bods.len() as u64;
 
-    run.par_slice("every header of length <= 4/5 over {) ] } ' x \\r \\n { 0xC3} x 6 bodies x every composition of the first len(header)+3 bytes (remainder in one read)", 1, nh * nb, |idx, l| {
+    run.par_slice("every header of length <= 4/6 over {) ] } ' x \\r \\n { 0xC3} x 6 bodies x every composition of the first len(header)+3 bytes (remainder in one read)", 1, nh * nb, |idx, l| {
         let k = idx & ((1 << 40) - 1);
         let header: Vec<u8> = crate::spaces::seq_upto_unrank(9, hmax, k / nb).iter().map(|&i| HALPHA[i]).collect();
         let mut data = header.clone();
